@@ -131,6 +131,14 @@ def check_state(pool, st, model, ctx, where, problems):
                         problems.append('%s: slot %d is bound to user buffer %d but its storage is elsewhere' % (where, k, ms['bind'][1]))
                     if raw['isinit']:
                         problems.append('%s: slot %d claims ownership of user storage' % (where, k))
+        # representation invariants of every live vector, whatever its value (also for consumed / failed-assignment targets)
+        if raw['isinit'] == 1 and raw['isinit_d'] == 1:
+            problems.append('%s: slot %d is flagged both as owning its storage and as bound to user storage' % (where, k))
+        if isinstance(raw['dim'], int) and isinstance(raw['size'], int) and raw['size'] != raw['dim'] * raw['dim']:
+            problems.append('%s: slot %d has dimension %d but size %d' % (where, k, raw['dim'], raw['size']))
+        if raw['isinit'] == 0 and raw['isinit_d'] == 0 and isinstance(raw['size'], int) and raw['size'] != 0 and not ms.get('uninit'):
+            problems.append('%s: slot %d neither owns storage nor is bound to user storage, yet it has size %d (components %#x): it refers to storage of someone else' % (
+                where, k, raw['size'], raw['components'] if isinstance(raw['components'], int) else -1))
         if raw['isinit'] == 1:
             p = raw['components']
             if p in owners:
@@ -313,6 +321,8 @@ def replay(chk, c):
     c['native'] = {'exit': res['exit'], 'report': (res['report'] or '')[:800]}
     if res['report']:
         return True, 'sanitizer: ' + [l for l in res['report'].split('\n') if l.strip()][0][:200]
+    if res.get('invariant'):
+        return True, 'native object representation: ' + res['invariant']
     model = Model(NSLOTS, bufs)
     off = 6
     for n, ins in enumerate(prog):
